@@ -48,11 +48,62 @@ def extract():
         pos = mm.end()
     if ok:
         record("dedup.check_before_protocol", rel2, raw2, re.search(r"check_duplicates\(&resharded_tags\)", raw2), True)
+    # (b17, seed C11d) the validator step of Query::execute is UNCONDITIONAL: `check_duplicates(&resharded_tags)?` is a
+    # statement of the function body itself (not inside any `if` / `match` arm / closure / loop), it is applied to the
+    # second component of the `reshard_aad` result with a validator created on the line before, and nothing stands
+    # between the `reshard_aad(..).await?` statement and it.
+    nesting, guards, argument, between, applies = None, [], "", "", False
+    mf = re.search(r"pub async fn execute\(", t2)
+    mc = re.compile(r"(\w+)\s*\.check_duplicates\(&(\w+)\)\?;").search(t2, mf.end() if mf else 0)
+    if not mf or not mc:
+        fail("dedup.check_unconditional", "`pub async fn execute(` or `.check_duplicates(&…)?;` not found in query/runner/hybrid.rs")
+    else:
+        body_open = t2.index("{", t2.index("-> Result<Vec<Replicated<HV>>, Error>", mf.end()))
+        stack, last = [], body_open + 1
+        for i in range(body_open + 1, mc.start()):
+            c = t2[i]
+            if c == "{":
+                stack.append(re.sub(r"\s+", " ", t2[last:i]).strip())
+                last = i + 1
+            elif c == "}":
+                if not stack:
+                    fail("dedup.check_unconditional", "`check_duplicates` is no longer inside Query::execute")
+                    break
+                stack.pop()
+                last = i + 1
+            elif c == ";":
+                last = i + 1
+        nesting, guards, argument = len(stack), stack, mc.group(2)
+        validator = mc.group(1)
+        ma = re.search(r"let \((\w+), (\w+)\) = reshard_aad\(.*?\)\s*\.await\?;", t2[mf.end():mc.start()], re.S)
+        if not ma:
+            fail("dedup.check_unconditional", "`let (reports, tags) = reshard_aad(..).await?;` not found before the validator step")
+        else:
+            between = re.sub(r"\s+", " ", t2[mf.end() + ma.end():mc.end()]).strip()
+            applies = argument == ma.group(2)
+            want = f"let mut {validator} = UniqueTagValidator::new({ma.group(2)}.len()); {validator}.check_duplicates(&{ma.group(2)})?;"
+            if nesting != 0:
+                fail("dedup.check_unconditional", f"`check_duplicates` is nested in {guards}: the validator step of Query::execute must not be conditional")
+            elif argument != ma.group(2):
+                fail("dedup.check_unconditional", f"`check_duplicates` is applied to `{argument}`, not to the tags returned by reshard_aad (`{ma.group(2)}`)")
+            elif between != want:
+                fail("dedup.check_unconditional", f"between `reshard_aad(..).await?;` and the validator step the code now reads `{between[:160]}` (modelled: `{want}`)")
+            else:
+                record("dedup.check_unconditional", rel2, raw2, re.search(r"check_duplicates\(&" + argument + r"\)\?;", raw2),
+                       {"nesting": 0, "argument": "second component of the reshard_aad result", "statements": between})
     if tag_size is None:
         return {}
-    L = ["/-! GENERATED by tools/extract.py (plugin c11_dedup) from ipa-core/src/report/hybrid.rs — do not edit. -/",
+    def q(x):
+        return '"' + x.replace("\\", "\\\\").replace('"', '\\"') + '"'
+    L = ["/-! GENERATED by tools/extract.py (plugin c11_dedup) from ipa-core/src/report/hybrid.rs and",
+         "ipa-core/src/query/runner/hybrid.rs — do not edit. -/",
          "namespace IpaVerif.Generated.Dedup", "",
          "/-- `TAG_SIZE`: number of ciphertext bytes used as the uniqueness tag -/",
          f"def tagSize : Nat := {tag_size}", "",
+         "/-- headers of the blocks of `Query::execute` that enclose the statement `….check_duplicates(&resharded_tags)?;`",
+         "(`if …`, `match …`, closures, loops); empty = the statement belongs to the function body itself -/",
+         "def checkGuards : List String := [" + ", ".join(q(g) for g in guards) + "]", "",
+         "/-- is the argument of `check_duplicates` the tag list returned by `reshard_aad` (its second component)? -/",
+         f"def checkAppliesToReshardedTags : Bool := {'true' if applies else 'false'}", "",
          "end IpaVerif.Generated.Dedup"]
     return {"Dedup.lean": "\n".join(L) + "\n"}
